@@ -33,7 +33,7 @@ class Interp(ExprMixin, StmtMixin, CallMixin):
             si.seq_eq_at: self.i_seq_eq_at, si.unchanged: self.i_unchanged, si.is_nan: self.i_is_nan,
             si.is_finite: self.i_is_finite, si.f32_round: self.i_f32_round, si.float_eq: self.i_float_eq,
             si.f32_bytes: self.i_f32_bytes, si.f64_bytes: self.i_f64_bytes, si.ghost: self.i_ghost,
-            si.fresh_int: self.i_fresh_int, si.f32_of_bytes: self.i_f32_of_bytes, si.f64_of_bytes: self.i_f64_of_bytes,
+            si.fresh_int: self.i_fresh_int, si.f32_of_bytes: self.i_f32_of_bytes, si.f64_of_bytes: self.i_f64_of_bytes, si.prefix_sum: self.i_prefix_sum,
         })
         from . import models_threading
         self.models.update(models_threading.build())
@@ -232,3 +232,16 @@ class Interp(ExprMixin, StmtMixin, CallMixin):
 
     def i_f64_of_bytes(self, I, args, kw):
         return self._fp_of_bytes(args, 8)
+
+    def i_prefix_sum(self, I, args, kw):
+        from .values import PS
+        seq, i = args
+        sq = self.as_seq(seq)
+        if sq.items is not None and isinstance(i, int):
+            import ast
+            total = 0
+            for x in sq.items[:i]:
+                total = self.binop(ast.Add, total, x)
+            return total
+        arr, _, _ = seqops.as_array(sq)
+        return mk("int", PS(arr, to_term(i, "int")))
